@@ -176,6 +176,7 @@ func histBuckets(c *rig.Ctx, labels []string) {
 func main() {
 	silenceKlog()
 	initPEM()
+	peekSelfTest()
 	rig.Main("C11", func(c *rig.Ctx) {
 		c.SetRule("a case is a history of 1-12 versions of one UpstreamCluster applied to one long-lived real ClusterInfo (ci), or a script of " +
 			"writes/deletes/deliveries/re-deliveries for 1-3 clusters through the real syncUpstreamCluster (ctl); versions vary annotations (nil/added/" +
@@ -183,6 +184,12 @@ func main() {
 			"(replaced, cleared, half-cleared, corrupted, mismatching; real throw-away certificates), server names, flow-control schemas (resized, " +
 			"retyped, removed, restored, duplicated, out-of-range), dispatch policies and logging; distinct = distinct canonical case; non-trivial = " +
 			"at least two versions, i.e. some state is carried from one object to the next")
+		c.SetExtra("observable_by_reflection", map[string]bool{"policies": havePolicies, "logging": haveLogging, "limiter": haveLimiter,
+			"limiter-mode": haveMode, "picker-upstreams": haveUpstreams})
+		if !(havePolicies && haveLogging && haveLimiter && haveMode && haveUpstreams) {
+			c.Note("representation changed: not observable by role any more (left out of every comparison; routing stays observed through MatchAttributes): policies=%v logging=%v limiter=%v mode=%v upstreams=%v",
+				havePolicies, haveLogging, haveLimiter, haveMode, haveUpstreams)
+		}
 		if c.Replay != "" {
 			var cs Case
 			if err := c.LoadReplay(&cs); err != nil {
